@@ -1939,7 +1939,14 @@ class Controller:
         returncode = returncode if returncode is not None else component.engine.exitReason()
 
         # VV: @tag:RestartEngines
-        if exitReason in component.specification.workflowAttributes.get('restartHookOn', []):
+        if (exitReason == experiment.model.codes.exitReasons["SubmissionFailed"]
+                and component.engine.resubmissionAttempts() >= self._max_resubmission_attempts):
+            # VV: The cap on consecutive re-submissions also applies to components that list SubmissionFailed
+            #     in their restartHookOn
+            retval = experiment.model.codes.restartCodes["RestartMaxAttemptsExceeded"]
+            self.log.critical("Maximum resubmission attempts (%d) exceeded (%s) - aborting" % (
+                self._max_resubmission_attempts, retval))
+        elif exitReason in component.specification.workflowAttributes.get('restartHookOn', []):
             try:
                 self.log.info("Attempting to restart due to %s %s (times so far: %d)" % (
                     component.specification.reference, exitReason, component.engine.restarts))
